@@ -300,6 +300,14 @@ impl Lex {
     }
 }
 
+#[cfg(feature = "verif_hooks")]
+impl Lex {
+    /// Number of bytes of this source not yet consumed by the lexer.
+    pub fn verif_unread(&self) -> usize {
+        self.buf.len() - self.pos
+    }
+}
+
 pub fn token_filename(sources: &[(Xstr, Xstr)], token: &Xsubstr) -> Option<Xstr> {
     sources
         .iter()
